@@ -2,7 +2,7 @@
    `input -> result * input` monad whose combinators have winnow 0.7.13's semantics on `&[u8]`
    with `ModalResult` (ErrMode::Backtrack; the parser never produces ErrMode::Cut except through
    the `separated` infinite-loop assertion, which panics under debug assertions and is modelled
-   as Panic).  Rust panics are explicit results.  Line numbers refer to parse/mod.rs. *)
+   as Panic).  Rust panics are explicit results.  Line numbers refer to parse/mod.rs at /repo commit 64a63d9 (after the six parser fixes). *)
 From Coq Require Import Ascii String.
 From ZV Require Import Common.Base gen.IdlKeywords Idl.Idl.
 Local Open Scope N_scope.
@@ -249,7 +249,7 @@ Definition whitespace_only : parser unit := fun i => (Ok tt, skip_ms i).
 Definition bytes_to_str (b : list byte) : parser (list byte) := fun i =>
   if utf8_valid b then (Ok b, i) else (Panic, i).
 
-(* field_name: a letter, then alphanumerics each optionally preceded by one underscore: the loop takes an alphanumeric, or an underscore
+(* 80-107 field_name: a letter, then alphanumerics each optionally preceded by one underscore: the loop takes an alphanumeric, or an underscore
    that is followed by an alphanumeric, and stops otherwise *)
 Fixpoint field_tail (l : list byte) : list byte * list byte :=
   match l with
@@ -271,7 +271,7 @@ Definition field_name : parser name := fun i =>
   | [] => (Back, i)
   end.
 
-(* 100-114 type_name *)
+(* 110-124 type_name *)
 Definition type_name : parser name := fun i =>
   match i with
   | b :: r =>
@@ -280,7 +280,7 @@ Definition type_name : parser name := fun i =>
   | [] => (Back, i)
   end.
 
-(* 117-126 primitive_type: alt over the translated keyword list, in source order *)
+(* 127-136 primitive_type: alt over the translated keyword list, in source order *)
 Fixpoint prim_alt (kws : list (list byte * N)) : parser prim :=
   match kws with
   | [] => fail
@@ -289,7 +289,7 @@ Fixpoint prim_alt (kws : list (list byte * N)) : parser prim :=
   end.
 Definition primitive_type : parser ty := pmap TPrim (prim_alt kw_prims).
 
-(* 464-477 comment_def *)
+(* 472-486 comment_def *)
 Definition is_sp_tab (b : byte) : bool := (b =? 32) || (b =? 9).
 (* `while !input.is_empty() && (input[0] == b' ' || input[0] == b'\t') { *input = &input[1..]; }` *)
 Definition skip_sp_tab : parser unit := fun i => (Ok tt, snd (span is_sp_tab i)).
@@ -299,7 +299,7 @@ Definition comment_def : parser comment :=
   line <- take_while0 (fun c => negb (c =? 10) && negb (c =? 13)) ;;
   bytes_to_str line.
 
-(* 440-462 parse_preceding_comments *)
+(* 448-470 parse_preceding_comments *)
 Fixpoint ppc_loop (fuel : nat) (i : list byte) : res (list comment) * list byte :=
   match fuel with
   | O => (NoFuel, i)
@@ -330,7 +330,7 @@ Definition parse_preceding_comments : parser (list comment) := fun i => ppc_loop
 Section TypeParsers.
   Variable vt : parser ty.
 
-  (* 129-138 field *)
+  (* 139-148 field *)
   Definition field_p : parser field :=
     cs <- parse_preceding_comments ;;
     n <- field_name ;;
@@ -340,38 +340,38 @@ Section TypeParsers.
 
   Definition comma_sep : parser unit := ws ;;; literal (bs ",") ;;; ws.
 
-  (* 141-148 struct_type *)
+  (* 151-158 struct_type *)
   Definition struct_type : parser ty :=
     literal (bs "(") ;;; ws ;;;
     fs <- separated0 field_p comma_sep ;;
     ws ;;; literal (bs ")") ;;;
     ret (TStruct fs).
 
-  (* 151-164 enum_type *)
+  (* 161-174 enum_type: separated(1.., ..) *)
   Definition enum_type : parser ty :=
     literal (bs "(") ;;; ws ;;;
     ns <- separated1 field_name comma_sep ;;
     ws ;;; literal (bs ")") ;;;
     ret (TEnum (List.map (fun n => mkVariant n []) ns)).
 
-  (* inline_type: alt((struct_type, enum_type)) *)
+  (* 181-183 inline_type: alt((struct_type, enum_type)) *)
   Definition inline_type : parser ty := alt2 struct_type enum_type.
 
-  (* 183-185 element_type *)
+  (* 186-188 element_type *)
   Definition element_type : parser ty :=
     alt2 primitive_type (alt2 (pmap TCustom type_name) inline_type).
 
-  (* 200-204 array_type, 207-211 map_type *)
+  (* 203-207 array_type, 210-214 map_type *)
   Definition array_type : parser ty := literal kw_array ;;; t <- vt ;; ret (TArr t).
   Definition map_type : parser ty := literal kw_map ;;; t <- vt ;; ret (TMap t).
 
-  (* 195-197 non_optional_type *)
+  (* 198-200 non_optional_type *)
   Definition non_optional_type : parser ty := alt2 array_type (alt2 map_type element_type).
 
-  (* 188-192 optional_type *)
+  (* 191-195 optional_type *)
   Definition optional_type : parser ty := literal kw_optional ;;; t <- non_optional_type ;; ret (TOpt t).
 
-  (* 214-216 varlink_type *)
+  (* 217-219 varlink_type *)
   Definition varlink_type_body : parser ty :=
     alt2 optional_type (alt2 array_type (alt2 map_type element_type)).
 End TypeParsers.
@@ -384,7 +384,7 @@ Fixpoint varlink_type_f (fuel : nat) : parser ty :=
   end.
 Definition varlink_type : parser ty := fun i => varlink_type_f (S (length i)) i.
 
-(* interface_name: a first segment starting with a letter, then one or more dot-separated
+(* 222-267 interface_name: a first segment starting with a letter, then one or more dot-separated
    segments starting with a letter or digit; segment bodies are alphanumerics and dashes and do
    not end in a dash *)
 Definition is_seg_char (b : byte) : bool := is_alnum b || (b =? 45).
@@ -432,7 +432,7 @@ Definition interface_name : parser name := fun i =>
   | [] => (Back, i)
   end.
 
-(* the field loops of parameter_list (279-310) and type_def (377-418) *)
+(* the field loops of parameter_list (287-318) and type_def (385-426) *)
 Section FieldLoops.
   Variable one : parser (field + variant).   (* one entry, up to and excluding the following blanks *)
   Fixpoint entries_loop (fuel : nat) : parser (list (field + variant)) :=
@@ -457,7 +457,7 @@ Fixpoint lefts {A B} (l : list (A + B)) : list A :=
 Fixpoint rights {A B} (l : list (A + B)) : list B :=
   match l with [] => [] | inr b :: r => b :: rights r | inl _ :: r => rights r end.
 
-(* 262-313 parameter_list *)
+(* 270-321 parameter_list *)
 Definition param_entry : parser (field + variant) :=
   cs <- parse_preceding_comments ;;
   n <- field_name ;;
@@ -470,7 +470,7 @@ Definition parameter_list : parser (list field) :=
   if close then ret []
   else with_len (fun fuel => l <- entries_loop param_entry fuel ;; ret (lefts l)).
 
-(* 316-335 method_def *)
+(* 324-343 method_def *)
 Definition method_def : parser method :=
   cs <- parse_preceding_comments ;;
   literal kw_method ;;;
@@ -482,7 +482,7 @@ Definition method_def : parser method :=
   outs <- parameter_list ;;
   ret (mkMethod n ins outs cs).
 
-(* 338-348 error_def *)
+(* 346-356 error_def *)
 Definition error_def : parser error :=
   cs <- parse_preceding_comments ;;
   literal kw_error ;;;
@@ -492,7 +492,7 @@ Definition error_def : parser error :=
   ps <- parameter_list ;;
   ret (mkError n ps cs).
 
-(* 351-436 type_def *)
+(* 359-444 type_def *)
 Definition typedef_entry : parser (field + variant) :=
   cs <- parse_preceding_comments ;;
   n <- field_name ;;
@@ -522,7 +522,7 @@ Definition type_def : parser custom :=
      else if has_typed then ret (CObject n fields cs)
      else ret (CEnum n variants cs)).
 
-(* the member loop of interface_def; a member that does not parse stays in the input *)
+(* 502-537 the member loop of interface_def; a member that does not parse stays in the input *)
 Definition member_p : parser member :=
   alt2 (pmap MType type_def) (alt2 (pmap MMethod method_def) (pmap MError error_def)).
 Fixpoint members_loop (fuel : nat) (i : list byte) : res (list member) * list byte :=
@@ -550,7 +550,7 @@ Fixpoint members_loop (fuel : nat) (i : list byte) : res (list member) * list by
     end
   end.
 
-(* interface_def *)
+(* 489-543 interface_def *)
 Definition interface_def : parser interface :=
   cs <- parse_preceding_comments ;;
   literal kw_interface ;;;
@@ -560,7 +560,7 @@ Definition interface_def : parser interface :=
   ms <- with_len members_loop ;;
   ret (interface_of n cs ms).
 
-(* 531-562 parse_interface / parse_from_str *)
+(* 546-577 parse_interface / parse_from_str *)
 Inductive outcome := Accept (t : interface) | Reject | OPanic | OFuel.
 
 Definition parse_interface (s : list byte) : outcome :=
